@@ -604,7 +604,12 @@ impl<'a> LineBreaker<'a> {
                     }
                     Glue(glue) => {
                         // TeX.2021.868
-                        if auto_breaking && i > 0 && list[i - 1].precedes_break() {
+                        // TeX.2021.869 leaves `prev_p` at the discretionary after passing over the
+                        // nodes it replaces, so glue right after a replaced run is preceded by the
+                        // discretionary (a legal place to break), whatever the last replaced node is.
+                        let prev_precedes_break = i > 0
+                            && (i == replaced_until || list[i - 1].precedes_break());
+                        if auto_breaking && prev_precedes_break {
                             // List of allowable line breaks in TeXBook chapter 14 p96:
                             // (a) at glue, provided that this glue is immediately preceded by
                             // a non-discardable item, and that it is not part of a math formula
